@@ -17,6 +17,7 @@ import (
 	"go/token"
 	"go/types"
 	"sort"
+	"strings"
 
 	"golang.org/x/tools/go/ssa"
 )
@@ -33,7 +34,8 @@ type Event struct {
 	Res    *T
 	Block  int
 	Epoch  int
-	Ver    int // heap version (consumption epoch) when the event happened
+	Ver    int           // heap version (consumption epoch) when the event happened
+	Heap   map[string]*T // enterloop: the tracked memory facts when the loop was entered (forgotten inside it)
 }
 
 type Cond struct {
@@ -76,7 +78,7 @@ type pstate struct {
 	blocks []int
 	onPath map[*ssa.BasicBlock]bool
 	curBlk int
-	stack  []frame // inlined calls in progress (innermost last)
+	stack  []frame     // inlined calls in progress (innermost last)
 	unroll map[int]int // loop header -> iterations unrolled so far on this path (headers in concrete mode)
 }
 
@@ -157,6 +159,7 @@ type Explorer struct {
 	unkID    int64
 	Err      error
 	NoInline bool
+	invPhi   map[*ssa.Phi]*T // loop-invariant header phis of the loop being entered
 	probing  bool // evaluating a loop header to see whether its test is decided
 	probeC   *T
 	// Bind lets a client pre-bind parameters to terms.
@@ -669,6 +672,10 @@ func (e *Explorer) runFrom(b *ssa.BasicBlock, pred int, from int, s *pstate, sta
 		switch in := b.Instrs[ii].(type) {
 		case *ssa.Phi:
 			if isHeaderStart {
+				if t, ok := e.invPhi[in]; ok {
+					s.regs[in] = t // never changed by the loop: its value on entry
+					continue
+				}
 				s.regs[in] = &T{Op: "loopvar", S: in.Comment, C: int64(b.Index), Ty: in.Type()}
 				continue
 			}
@@ -722,6 +729,10 @@ func (e *Explorer) runFrom(b *ssa.BasicBlock, pred int, from int, s *pstate, sta
 					nm += it // storage created in an unrolled iteration is distinct per iteration
 				}
 				s.regs[in] = &T{Op: "new", S: nm, C: int64(allocID(in)), Ty: in.Type()}
+				if isTextBuilder(in.Type()) {
+					lv := builderText(s.regs[in])
+					s.heap[lv.Key()], s.heapLV[lv.Key()] = tstr(""), lv // a new builder is empty
+				}
 			} else {
 				delete(s.allocs, in)
 			}
@@ -979,13 +990,33 @@ func (e *Explorer) edge(from, to *ssa.BasicBlock, s *pstate, start int) {
 				}
 			}
 		}
-		s.events = append(s.events, Event{Kind: "enterloop", Args: args, Block: from.Index, Res: tconst(int64(to.Index), nil)})
+		s.events = append(s.events, Event{Kind: "enterloop", Args: args, Block: from.Index, Res: tconst(int64(to.Index), nil), Heap: s.heap})
+		// header phis that every back edge feeds with the phi itself keep their entry value
+		e.invPhi = map[*ssa.Phi]*T{}
+		k := 0
+		for _, in := range to.Instrs {
+			phi, ok := in.(*ssa.Phi)
+			if !ok {
+				break
+			}
+			inv := true
+			for i, p := range to.Preds {
+				if p != from && phi.Edges[i] != ssa.Value(phi) {
+					inv = false
+				}
+			}
+			if inv && k < len(args) {
+				e.invPhi[phi] = args[k]
+			}
+			k++
+		}
 		s.verAll++
 		s.heap = map[string]*T{}
 		s.heapLV = map[string]*T{}
+		body := e.loopBody(to)
 		for _, b := range e.Fn.Blocks {
-			if !to.Dominates(b) {
-				continue
+			if !body[b] {
+				continue // a block that leaves the loop for good cannot change what an iteration sees
 			}
 			for _, in := range b.Instrs {
 				if st, ok := in.(*ssa.Store); ok {
@@ -1114,6 +1145,10 @@ func (e *Explorer) callEvent(s *pstate, kind string, in ssa.Instruction, c *ssa.
 		args = append(args, e.val(s, a))
 	}
 	ev.Args = args
+	if kind == "call" && v != nil && e.modelBuilder(s, &ev, v) {
+		s.events = append(s.events, ev)
+		return
+	}
 	if kind == "call" {
 		e.havoc(s, ev.Callee)
 	}
@@ -1296,4 +1331,119 @@ func (s *pstate) iteration() string {
 		out += fmt.Sprintf("~%d.%d", h, s.unroll[h])
 	}
 	return out
+}
+
+// Text builders.  A strings.Builder (bytes.Buffer) is modelled as one string:
+// writing appends to it, String() reads it, and none of it disturbs any other
+// memory fact.  `out += x` and `out.WriteString(x)` then build the same term.
+func isTextBuilder(t types.Type) bool {
+	if p, ok := t.(*types.Pointer); ok {
+		t = p.Elem()
+	}
+	n, ok := t.(*types.Named)
+	if !ok || n.Obj().Pkg() == nil {
+		return false
+	}
+	q := n.Obj().Pkg().Path() + "." + n.Obj().Name()
+	return q == "strings.Builder" || q == "bytes.Buffer"
+}
+
+func builderText(ptr *T) *T {
+	var base *T
+	switch ptr.Op {
+	case "addr":
+		base = ptr.A[0]
+	case "new", "alloc":
+		base = ptr
+	default:
+		base = &T{Op: "deref", A: []*T{ptr}}
+	}
+	return &T{Op: "sel", S: "$text", A: []*T{base}, Ty: types.Typ[types.String]}
+}
+
+func (e *Explorer) modelBuilder(s *pstate, ev *Event, v ssa.Value) bool {
+	cal := ev.Callee
+	if cal == nil || len(ev.Args) == 0 {
+		return false
+	}
+	strT := types.Typ[types.String]
+	appendText := func(ptr, x *T) {
+		lv := builderText(ptr)
+		cur := e.loadLV(s, lv, strT)
+		nv := mkbin("+", cur, x, strT)
+		s.bump(lv)
+		s.heap[lv.Key()], s.heapLV[lv.Key()] = nv, lv
+		s.events = append(s.events, Event{Kind: "store", Instr: ev.Instr, Pos: ev.Pos, LV: lv, Val: nv, Block: ev.Block, Epoch: s.seq})
+	}
+	// fmt.Fprint* into a builder
+	if cal.Pkg != nil && cal.Pkg.Pkg.Path() == "fmt" && strings.HasPrefix(cal.Name(), "Fprint") {
+		w := ev.Args[0]
+		if w.Op == "iface" && isTextBuilder(w.A[0].Ty) {
+			txt := &T{Op: "call", S: "fmt.S" + strings.TrimPrefix(cal.Name(), "F"), A: ev.Args[1:], Ty: strT}
+			appendText(w.A[0], txt)
+			r := &T{Op: "tuple", A: []*T{{Op: "len", A: []*T{txt}}, {Op: "nil"}}, Ty: v.Type()}
+			ev.Res, s.regs[v] = r, r
+			return true
+		}
+		return false
+	}
+	recv := cal.Signature.Recv()
+	if recv == nil || !isTextBuilder(recv.Type()) {
+		return false
+	}
+	ptr := ev.Args[0]
+	var r *T
+	switch cal.Name() {
+	case "WriteString", "Write":
+		if len(ev.Args) != 2 {
+			return false
+		}
+		appendText(ptr, ev.Args[1])
+		r = &T{Op: "tuple", A: []*T{{Op: "len", A: []*T{ev.Args[1]}}, {Op: "nil"}}, Ty: v.Type()}
+	case "WriteByte":
+		appendText(ptr, &T{Op: "conv", S: "string", A: []*T{ev.Args[1]}, Ty: strT})
+		r = &T{Op: "nil"}
+	case "WriteRune":
+		appendText(ptr, &T{Op: "conv", S: "string", A: []*T{ev.Args[1]}, Ty: strT})
+		r = &T{Op: "tuple", A: []*T{e.unk("runelen", nil), {Op: "nil"}}, Ty: v.Type()}
+	case "String":
+		r = e.loadLV(s, builderText(ptr), strT)
+	case "Len":
+		r = &T{Op: "len", A: []*T{e.loadLV(s, builderText(ptr), strT)}, Ty: v.Type()}
+	case "Reset":
+		lv := builderText(ptr)
+		s.bump(lv)
+		s.heap[lv.Key()], s.heapLV[lv.Key()] = tstr(""), lv
+		r = &T{Op: "none"}
+	case "Grow":
+		r = &T{Op: "none"}
+	default:
+		return false
+	}
+	ev.Res, s.regs[v] = r, r
+	return true
+}
+
+// loopBody: the natural loop of header h (blocks from which a back edge to h
+// is reachable without leaving through h).
+func (e *Explorer) loopBody(h *ssa.BasicBlock) map[*ssa.BasicBlock]bool {
+	body := map[*ssa.BasicBlock]bool{h: true}
+	var work []*ssa.BasicBlock
+	for _, p := range h.Preds {
+		if h.Dominates(p) && !body[p] {
+			body[p] = true
+			work = append(work, p)
+		}
+	}
+	for len(work) > 0 {
+		b := work[len(work)-1]
+		work = work[:len(work)-1]
+		for _, p := range b.Preds {
+			if !body[p] && h.Dominates(p) {
+				body[p] = true
+				work = append(work, p)
+			}
+		}
+	}
+	return body
 }
